@@ -437,8 +437,18 @@ func c18WellFormed(target string) bool {
 	return err == nil
 }
 
+// NewVRand(seed) starts the splitmix counter at seed*gamma+c, i.e. seed k+1 is seed k shifted by one
+// draw and the two streams re-align after a few variable-length generator calls.  Scramble the
+// seed so that different seeds start 2^40+ draws apart.
+func c18MixSeed(seed uint64) uint64 {
+	z := seed*0xD6E8FEB86659FD93 + 0xC18C18C18
+	z = (z ^ (z >> 30)) * 0xBF58476D1CE4E5B9
+	z = (z ^ (z >> 27)) * 0x94D049BB133111EB
+	return z ^ (z >> 31)
+}
+
 func TestVerifC18(t *testing.T) {
-	r := NewVRand(VSeed())
+	r := NewVRand(c18MixSeed(VSeed()))
 	stats := NewVStats()
 	st := VOpenStream("c18")
 	defer func() { st.Close(); stats.Write("c18") }()
